@@ -321,8 +321,16 @@ def install_s3_clock(clock_fn):
 
         @classmethod
         def now(cls, tz=None):
-            return clock_fn()
+            return clock_fn() if tz is None else clock_fn().replace(tzinfo=datetime.timezone.utc).astimezone(tz)
     names = [n for n, v in vars(S).items() if v is real or (isinstance(v, type) and issubclass(v, real) and v.__name__ == 'FakeDT')]
     for n in names:
         setattr(S, n, FakeDT)
+    import types
+    for n, v in list(vars(S).items()):   # the module imported as a whole (`import datetime`) instead of the class
+        if v is datetime or getattr(v, '_mc_datetime_shim', False):
+            shim = types.SimpleNamespace(**{k: getattr(datetime, k) for k in dir(datetime) if not k.startswith('__')})
+            shim.datetime = FakeDT
+            shim._mc_datetime_shim = True
+            setattr(S, n, shim)
+            names.append(n)
     return names
